@@ -4,6 +4,7 @@ mod common;
 mod explore;
 mod props;
 mod refm;
+mod replay;
 mod report;
 mod rx;
 mod rxalpha;
@@ -50,12 +51,7 @@ fn main() {
             std::process::exit(code);
         }
         "replay" => {
-            let s = std::fs::read_to_string(&args[2]).unwrap_or_else(|e| {
-                eprintln!("cannot read {}: {}", args[2], e);
-                std::process::exit(2)
-            });
-            println!("{}", s);
-            std::process::exit(0);
+            std::process::exit(replay::replay_file(&args[2]));
         }
         _ => usage(),
     }
